@@ -11,7 +11,8 @@ META = {
             '(cycle, missing parent, root = top of chain) + refusal rule + '
             'reported parent/root and in_tree listings; distinct = canonical '
             'forest shapes reached + (move kind, subtree size) + refusal '
-            'kinds',
+            'kinds'
+            ' plus a concurrent part: the C05-C07 scenario catalogue (and provider-tree races) run under the transaction-granularity scheduler, the same oracle evaluated on every committed state / committing step of every explored interleaving',
     'floors': {'concurrent_schedules': 100,
                'moves': 5, 'moves_subtree_ge2_descendants': 1,
                'refusals_due': 5, 'views_checked': 10},
